@@ -114,6 +114,36 @@ func runNumTable(c *core.Ctx) []core.Obligation {
 			b.ok(key, c.FuncPos(fn), "all 16 flag subsets give the documented type for a "+cl.name+" number")
 		}
 	}
+	// the table above is the only decision: decodeInterface hands every number to
+	// decodeDynamicNumber and decodes none itself (a float64 shortcut guarded by a flag mask that
+	// forgets one of the four flags gives that flag's numbers the wrong type)
+	if di := c.Lookup("json.(decoder).decodeInterface"); di != nil {
+		key := "number-result:single-entry"
+		bad := ""
+		through := false
+		for _, ci := range callsIn(di) {
+			f := staticCallee(ci.Common())
+			if f == nil {
+				continue
+			}
+			switch f.Name() {
+			case "decodeDynamicNumber":
+				through = true
+			case "decodeFloat64", "decodeFloat32", "decodeInt64", "decodeUint64", "decodeInt", "decodeUint", "decodeNumber", "parseFloat", "ParseFloat":
+				bad = f.Name() + " at " + c.InstrPos(ci)
+			}
+		}
+		switch {
+		case bad != "":
+			b.bad(key, c.FuncPos(di), "decodeInterface decodes a number itself ("+bad+") instead of leaving the choice of its Go type to decodeDynamicNumber: the flags that the shortcut's guard does not mention no longer select their type (with UseBigInt alone, integers in an interface become float64)")
+		case !through:
+			b.und(key, c.FuncPos(di), "decodeInterface does not call decodeDynamicNumber")
+		default:
+			b.ok(key, c.FuncPos(di), "numbers stored in an interface are all typed by decodeDynamicNumber")
+		}
+	} else {
+		b.und("number-result:single-entry", "-", "json.(decoder).decodeInterface not found")
+	}
 	return b.out
 }
 
